@@ -231,3 +231,70 @@ Definition C04_check (c : cfg) (h : list (op * opres)) : bool :=
   let S := stream_of ops in
   if stream_wf c S && stamps_increasing ops then check_from c S (init_cst (c_g c)) h
   else true.                                   (* not a well-formed delivery: the statement is silent *)
+
+(* ================================================================================================ *)
+(* Prop-level vocabulary for the theorems                                                           *)
+(* ================================================================================================ *)
+
+(* the frame-bit pattern of an uninterrupted delivery that starts on a frame boundary *)
+Definition frame_bits_wf (g : geom) (S : list Z) : Prop :=
+  forall k, 0 <= k -> 4 * k + 2 < zlen S -> bit0 (znth 0 S (4 * k + 2)) = (k mod nwords g <? ncols g).
+
+(* the same for the part of the stream that starts (frame-aligned) at byte o *)
+Definition frame_bits_wf_from (g : geom) (S : list Z) (o : Z) : Prop :=
+  forall k, 0 <= k -> o + 4 * k + 2 < zlen S ->
+    bit0 (znth 0 S (o + 4 * k + 2)) = (k mod nwords g <? ncols g).
+
+(* frame bits of a delivery from which bytes were lost in front of stream byte [pos], both the position and
+   the number of lost bytes being multiples of 4: before [pos] the frames are aligned at byte 0, and the
+   byte at [pos] lies [ph] bytes into a frame *)
+Definition gap_bits_wf (g : geom) (S : list Z) (pos ph : Z) : Prop :=
+  forall k, 0 <= k -> 4 * k + 2 < zlen S ->
+    bit0 (znth 0 S (4 * k + 2)) =
+    if 4 * k <? pos then k mod nwords g <? ncols g
+    else (k - pos / 4 + ph / 4) mod nwords g <? ncols g.
+
+(* m whole frames that start at stream byte R, demultiplexed in readout order:
+   buffer i (i = 2*word + 0 error / 1 feedback), sample j *)
+Definition exact_data (g : geom) (S : list Z) (R m : Z) : list (list Z) :=
+  map (fun i => map (fun j => u16_at S (R + j * fsize g + 2 * i)) (zrange 0 m)) (zrange 0 (nchan g)).
+
+(* what an exact reader does with reads of the given sizes: D bytes delivered, R bytes released so far *)
+Fixpoint exact_run (g : geom) (S : list Z) (D R : Z) (chunks : list (list Z * Z)) : list tick_res :=
+  match chunks with
+  | [] => []
+  | (c, stamp) :: rest =>
+      let D' := D + zlen c in
+      if D' - R <? 3 * fsize g
+      then {| t_pend := zslice S R (D' - R); t_rels := []; t_out := TSmall |} :: exact_run g S D' R rest
+      else
+        let m := (D' - R) / fsize g in
+        {| t_pend := zslice S (R + m * fsize g) (D' - R - m * fsize g); t_rels := [m * fsize g];
+           t_out := TBuf {| bm_data := exact_data g S R m; bm_stamp := stamp; bm_drop := false |} |}
+        :: exact_run g S D' (R + m * fsize g) rest
+  end.
+
+(* the blocks a history delivered, in order *)
+Definition blocks_of (rs : list opres) : list block :=
+  flat_map (fun r => match r with RTick _ (Some b) => [b] | _ => [] end) rs.
+
+Definition block_len (b : block) : Z := zlen (znth [] (b_data b) 0).
+
+(* frame numbers never go backwards: every block starts at or after the end of the one before *)
+Fixpoint mono_from (n : Z) (bs : list block) : Prop :=
+  match bs with
+  | [] => True
+  | b :: r => n <= b_first b /\ mono_from (b_first b + block_len b) r
+  end.
+
+(* the cleared feedback value carried out of a block *)
+Definition last_cleared (prev : Z) (fbs : list Z) : Z := fold_left (fun _ f => mask3 f) fbs prev.
+
+(* ---------- the full statement about lost bytes (FALSE of the unchanged reader, see the _refuted theorem) ---------- *)
+(* Whatever the position and the length of the loss (in bytes), on a delivery that is well-formed on both sides
+   of the cut the system's answers pass the checker: every whole frame in front of the cut and every frame behind
+   the next frame boundary appears exactly once in the right channels, the first block behind the cut reports the
+   loss, frame numbers never go backwards, nothing crashes. *)
+Definition realign_after_gap_statement (sys : cfg -> list op -> list opres) : Prop :=
+  forall c ops, c_gap c <> None -> stream_wf c (stream_of ops) = true -> stamps_increasing ops = true ->
+    C04_check c (combine ops (sys c ops)) = true.
